@@ -1,12 +1,10 @@
-(* C16  Only configured or permitted neighbours get a session, set up right:
-   the negotiation part (mirror-image parameters; a feature is in force iff
-   both advertised it).  PARTIAL: accept_connection, PeerParams and
-   delete-on-disconnect are not modelled; IpNet::contains is modelled and tied
-   to the code but its bit-level theorem is not proved here.
+(* C16  Only configured or permitted neighbours get a session, set up right.
    Statements only: each theorem is closed by [exact], pinned by [Check] and
    followed by [Print Assumptions]. *)
 From Coq Require Import List NArith Bool.
-From RB Require Import Base.Val Model.Caps Model.Fsm Model.Negotiate Spec.NegotiateSpec Proofs.Negotiate.
+From RB Require Import Base.Val Model.Caps Model.Fsm Model.Negotiate Model.Accept
+                       Spec.NegotiateSpec Spec.AcceptSpec
+                       Proofs.Negotiate Proofs.IpNet Proofs.Accept.
 Import ListNotations.
 Open Scope N_scope.
 
@@ -54,24 +52,299 @@ Check graceful_restart_mirror :
   forall (l r : list cap), same_set (gr_fams (negotiate_gr l r)) (gr_fams (negotiate_gr r l)).
 Print Assumptions graceful_restart_mirror.
 
-(* (5) Finding C16-2 (open): with duplicate ADD-PATH entries the FSM's effective send-max exceeds 1 for a negotiated family whose add-path send direction is not in force in the codec. *)
-Theorem send_max_without_addpath_tx_refuted :
-  exists (smax : list (N * N)) (l r : list cap) (f : N),
-    has_mp l f && has_mp r f = true /\ 1 < driver_max smax l r f
-    /\ neg_family l r f = Some (false, false).
-Proof. exact C16_send_max_without_addpath_tx_refuted. Qed.
-Check send_max_without_addpath_tx_refuted :
-  exists (smax : list (N * N)) (l r : list cap) (f : N),
-    has_mp l f && has_mp r f = true /\ 1 < driver_max smax l r f
-    /\ neg_family l r f = Some (false, false).
-Print Assumptions send_max_without_addpath_tx_refuted.
+(* (5) The driver's effective send-max and the codec agree (finding C16-2
+   repaired): more than one path is sent for a family only where add-path send
+   is in force in PeerCodec::negotiate; where it is, the configured send-max
+   applies; where the family or the send direction is not in force it is 1. *)
+Theorem send_max_iff_addpath_tx :
+  forall (smax : list (N * N)) (l r : list cap) (f : N),
+    (1 < driver_max smax l r f ->
+       (exists rx, neg_family l r f = Some (rx, true)) /\ driver_max smax l r f = configured_max smax f)
+    /\ ((exists rx, neg_family l r f = Some (rx, true)) -> driver_max smax l r f = configured_max smax f)
+    /\ (neg_family l r f = None \/ (exists rx, neg_family l r f = Some (rx, false)) -> driver_max smax l r f = 1).
+Proof. exact C16_send_max_iff_addpath_tx. Qed.
+Check send_max_iff_addpath_tx :
+  forall (smax : list (N * N)) (l r : list cap) (f : N),
+    (1 < driver_max smax l r f ->
+       (exists rx, neg_family l r f = Some (rx, true)) /\ driver_max smax l r f = configured_max smax f)
+    /\ ((exists rx, neg_family l r f = Some (rx, true)) -> driver_max smax l r f = configured_max smax f)
+    /\ (neg_family l r f = None \/ (exists rx, neg_family l r f = Some (rx, false)) -> driver_max smax l r f = 1).
+Print Assumptions send_max_iff_addpath_tx.
 
-(* (6) Finding C16-3 (open): an LLGR capability naming a family twice can leave LLGR in force at one end only. *)
-Theorem llgr_mirror_refuted :
+(* (6) LLGR is in force for the same families at both ends, for all capability lists (finding C16-3 repaired). *)
+Theorem llgr_mirror :
+  forall (l r : list cap), same_set (llgr_fams (negotiate_llgr l r)) (llgr_fams (negotiate_llgr r l)).
+Proof. exact C16_llgr_mirror. Qed.
+Check llgr_mirror :
+  forall (l r : list cap), same_set (llgr_fams (negotiate_llgr l r)) (llgr_fams (negotiate_llgr r l)).
+Print Assumptions llgr_mirror.
+
+(* (7) IpNet::contains: for every prefix length up to the address width, IPv4
+   and IPv6, canonical or not, it does not panic and answers exactly "same
+   family and the address agrees with the prefix on its leading mask bits". *)
+Theorem contains_eq_bit_prefix :
+  forall (net : ipnet) (addr : ipaddr),
+    net_ok net -> addr_ok addr -> mask_of net <= width net ->
+    exists v, contains net addr = COk v /\ (v = true <-> inside net addr).
+Proof. exact C16_contains_eq_bit_prefix. Qed.
+Check contains_eq_bit_prefix :
+  forall (net : ipnet) (addr : ipaddr),
+    net_ok net -> addr_ok addr -> mask_of net <= width net ->
+    exists v, contains net addr = COk v /\ (v = true <-> inside net addr).
+Print Assumptions contains_eq_bit_prefix.
+
+(* (8) A prefix length above the width (which FromStr, the only constructor
+   used for dynamic-neighbour prefixes, rejects: it accepts 0..=32 / 0..=128;
+   IpNet::new does not check) never answers "inside": the result is false or
+   a slice-index panic, and it is the panic on every address equal to the
+   prefix's own octets. *)
+Theorem contains_beyond_width :
+  forall (w : nat) (a b : list N) (mask : N),
+    length a = w -> length b = w -> 8 * N.of_nat w < mask ->
+    (contains_octets a b mask = CPanic \/ contains_octets a b mask = COk false)
+    /\ contains_octets a a mask = CPanic.
+Proof. exact C16_contains_beyond_width. Qed.
+Check contains_beyond_width :
+  forall (w : nat) (a b : list N) (mask : N),
+    length a = w -> length b = w -> 8 * N.of_nat w < mask ->
+    (contains_octets a b mask = CPanic \/ contains_octets a b mask = COk false)
+    /\ contains_octets a a mask = CPanic.
+Print Assumptions contains_beyond_width.
+
+(* (9) Record of finding C16-2 (repaired): the any-entry filter PeerFsm::process used before keeps a send-max of 8 for a family whose add-path send is not in force. *)
+Theorem send_max_any_filter_refuted :
+  exists (smax : list (N * N)) (l r : list cap) (f : N),
+    In (f, 8) (effective_max_any smax l r) /\ neg_family l r f = Some (false, false).
+Proof. exact C16_send_max_any_filter_refuted. Qed.
+Check send_max_any_filter_refuted :
+  exists (smax : list (N * N)) (l r : list cap) (f : N),
+    In (f, 8) (effective_max_any smax l r) /\ neg_family l r f = Some (false, false).
+Print Assumptions send_max_any_filter_refuted.
+
+(* (10) Record of finding C16-3 (repaired): walking every local LLGR entry (no first-entry rule) leaves LLGR in force at one end only. *)
+Theorem llgr_all_entries_refuted :
   exists (l r : list cap),
-    ~ same_set (llgr_fams (negotiate_llgr l r)) (llgr_fams (negotiate_llgr r l)).
-Proof. exact C16_llgr_mirror_refuted. Qed.
-Check llgr_mirror_refuted :
+    ~ same_set (negotiate_llgr_all_entries l r) (negotiate_llgr_all_entries r l).
+Proof. exact C16_llgr_all_entries_refuted. Qed.
+Check llgr_all_entries_refuted :
   exists (l r : list cap),
-    ~ same_set (llgr_fams (negotiate_llgr l r)) (llgr_fams (negotiate_llgr r l)).
-Print Assumptions llgr_mirror_refuted.
+    ~ same_set (negotiate_llgr_all_entries l r) (negotiate_llgr_all_entries r l).
+Print Assumptions llgr_all_entries_refuted.
+
+(* (11) Admission: for a configuration whose dynamic prefixes have lengths up to
+   the address width (what FromStr accepts), a connection becomes a session iff
+   its remote address is a configured neighbour that is administratively up and
+   has no connection in that direction, or is not a configured neighbour and
+   lies (bit-level) inside a dynamic-neighbour prefix; everything else is
+   dropped (accept_connection returns None before any OPEN is built). *)
+Theorem accept_iff_permitted :
+  forall (g : global) (a : ipaddr) (r : role),
+    wf_global g -> addr_ok a ->
+    (accept_connection g a r <> Reject <-> permitted g a r).
+Proof. exact C16_accept_iff_permitted. Qed.
+Check accept_iff_permitted :
+  forall (g : global) (a : ipaddr) (r : role),
+    wf_global g -> addr_ok a ->
+    (accept_connection g a r <> Reject <-> permitted g a r).
+Print Assumptions accept_iff_permitted.
+
+(* (12) The 'only if' of the property text, literally. *)
+Theorem accept_only_if_text :
+  forall (g : global) (a : ipaddr) (r : role),
+    wf_global g -> addr_ok a -> accept_connection g a r <> Reject -> permitted_text g a r.
+Proof. exact C16_accept_only_if_text. Qed.
+Check accept_only_if_text :
+  forall (g : global) (a : ipaddr) (r : role),
+    wf_global g -> addr_ok a -> accept_connection g a r <> Reject -> permitted_text g a r.
+Print Assumptions accept_only_if_text.
+
+(* (13) An accepted connection is recorded on its neighbour, leaves every other
+   neighbour and the groups untouched, and its session carries the neighbour's
+   capabilities, local AS and prefix limits, the role that follows from the
+   configured AS numbers (route-server client, iBGP / RR client, confederation
+   member, eBGP) and a cluster id exactly for iBGP roles.  The neighbour is the
+   configured one, or - for a dynamic neighbour - is built from a group one of
+   whose prefixes contains the address: AS, hold time (default 180), passive,
+   route-server, route-reflector, send-max and families from the group, no
+   prefix limits, delete-on-disconnect set. *)
+Theorem session_fields_from_config :
+  forall (g g' : global) (a : ipaddr) (r : role) (s : session),
+    accept_connection g a r = Accept g' s ->
+    exists p,
+      lookup a (gl_peers g') = Some p /\ s = session_of g p r
+      /\ conn_of p r = true /\ (forall b, b <> a -> lookup b (gl_peers g') = lookup b (gl_peers g))
+      /\ gl_groups g' = gl_groups g
+      /\ s_local_cap s = pe_local_cap p /\ s_local_asn s = pe_local_asn p
+      /\ s_prefix_limits s = pe_prefix_limits p /\ s_dir s = r
+      /\ s_role s = role_of_config (match gl_confed g with Some (_, m) => m | None => [] end)
+                                   (pe_rs_client p) (rr_client (pe_rr p)) (pe_expected_asn p) (pe_local_asn p)
+      /\ (s_cluster s <> None <-> s_role s = 2 \/ s_role s = 3)
+      /\ ((exists p0, lookup a (gl_peers g) = Some p0 /\ p = set_conn p0 r true)
+          \/
+          (lookup a (gl_peers g) = None /\
+           exists gr, In gr (gl_groups g) /\ group_matches a gr = true
+                      /\ p = set_conn (build_peer g a (params_of_group gr)) r true
+                      /\ pe_expected_asn p = g_as gr
+                      /\ pe_hold p = match g_hold gr with Some h => h | None => DEFAULT_HOLD_TIME end
+                      /\ pe_passive p = g_passive gr /\ pe_rs_client p = g_rs_client gr /\ pe_rr p = g_rr gr
+                      /\ pe_send_max p = g_send_max gr /\ pe_prefix_limits p = []
+                      /\ pe_delete p = true /\ pe_admin_down p = false
+                      /\ pe_local_cap p = build_local_cap (is_v6 a) (pe_local_asn p) (g_families gr) (g_gr gr) (g_llgr gr))).
+Proof. exact C16_session_fields_from_config. Qed.
+Check session_fields_from_config :
+  forall (g g' : global) (a : ipaddr) (r : role) (s : session),
+    accept_connection g a r = Accept g' s ->
+    exists p,
+      lookup a (gl_peers g') = Some p /\ s = session_of g p r
+      /\ conn_of p r = true /\ (forall b, b <> a -> lookup b (gl_peers g') = lookup b (gl_peers g))
+      /\ gl_groups g' = gl_groups g
+      /\ s_local_cap s = pe_local_cap p /\ s_local_asn s = pe_local_asn p
+      /\ s_prefix_limits s = pe_prefix_limits p /\ s_dir s = r
+      /\ s_role s = role_of_config (match gl_confed g with Some (_, m) => m | None => [] end)
+                                   (pe_rs_client p) (rr_client (pe_rr p)) (pe_expected_asn p) (pe_local_asn p)
+      /\ (s_cluster s <> None <-> s_role s = 2 \/ s_role s = 3)
+      /\ ((exists p0, lookup a (gl_peers g) = Some p0 /\ p = set_conn p0 r true)
+          \/
+          (lookup a (gl_peers g) = None /\
+           exists gr, In gr (gl_groups g) /\ group_matches a gr = true
+                      /\ p = set_conn (build_peer g a (params_of_group gr)) r true
+                      /\ pe_expected_asn p = g_as gr
+                      /\ pe_hold p = match g_hold gr with Some h => h | None => DEFAULT_HOLD_TIME end
+                      /\ pe_passive p = g_passive gr /\ pe_rs_client p = g_rs_client gr /\ pe_rr p = g_rr gr
+                      /\ pe_send_max p = g_send_max gr /\ pe_prefix_limits p = []
+                      /\ pe_delete p = true /\ pe_admin_down p = false
+                      /\ pe_local_cap p = build_local_cap (is_v6 a) (pe_local_asn p) (g_families gr) (g_gr gr) (g_llgr gr))).
+Print Assumptions session_fields_from_config.
+
+(* (14) When the connection (a, r) ends: a dynamic neighbour with no connection
+   in the other direction disappears from the table, any other neighbour stays
+   with the connection mark cleared, and no other neighbour is touched. *)
+Theorem dynamic_peer_removed :
+  forall (g : global) (a : ipaddr) (r : role) (p : peer),
+    keys_ok g -> lookup a (gl_peers g) = Some p -> conn_of p r = true ->
+    let g' := fst (step_op g (ODisconnect a r)) in
+    (pe_delete p = true -> conn_of p (other r) = false -> lookup a (gl_peers g') = None)
+    /\ (pe_delete p = false \/ conn_of p (other r) = true -> lookup a (gl_peers g') = Some (set_conn p r false))
+    /\ (forall b, b <> a -> lookup b (gl_peers g') = lookup b (gl_peers g)).
+Proof. exact C16_dynamic_peer_removed. Qed.
+Check dynamic_peer_removed :
+  forall (g : global) (a : ipaddr) (r : role) (p : peer),
+    keys_ok g -> lookup a (gl_peers g) = Some p -> conn_of p r = true ->
+    let g' := fst (step_op g (ODisconnect a r)) in
+    (pe_delete p = true -> conn_of p (other r) = false -> lookup a (gl_peers g') = None)
+    /\ (pe_delete p = false \/ conn_of p (other r) = true -> lookup a (gl_peers g') = Some (set_conn p r false))
+    /\ (forall b, b <> a -> lookup b (gl_peers g') = lookup b (gl_peers g)).
+Print Assumptions dynamic_peer_removed.
+
+(* (15) Over every history of connects, disconnects, disables and enables: a
+   dynamic neighbour is in the table only while it has a connection. *)
+Theorem dynamic_peers_have_connections :
+  forall (g : global) (ops : list op),
+    keys_ok g -> dynamic_have_connection g ->
+    dynamic_have_connection (run_ops g ops) /\ keys_ok (run_ops g ops).
+Proof. exact C16_dynamic_peers_have_connections. Qed.
+Check dynamic_peers_have_connections :
+  forall (g : global) (ops : list op),
+    keys_ok g -> dynamic_have_connection g ->
+    dynamic_have_connection (run_ops g ops) /\ keys_ok (run_ops g ops).
+Print Assumptions dynamic_peers_have_connections.
+
+(* (16) PeerParams::apply_peer_group: the neighbour's own settings win, the group fills in what is left open. *)
+Theorem peer_group_inheritance :
+  forall (p : params) (gr : group),
+    let q := apply_peer_group p gr in
+    (pa_expected_asn q = if pa_expected_asn p =? 0 then g_as gr else pa_expected_asn p)
+    /\ (pa_local_asn q = if pa_local_asn p =? 0 then g_local_asn gr else pa_local_asn p)
+    /\ (pa_hold q = if pa_hold p =? DEFAULT_HOLD_TIME
+                    then match g_hold gr with Some h => h | None => DEFAULT_HOLD_TIME end else pa_hold p)
+    /\ (pa_families q = match pa_families p with [] => g_families gr | f => f end)
+    /\ (pa_send_max q = match pa_families p with [] => g_send_max gr | _ => pa_send_max p end)
+    /\ (pa_gr q = match pa_gr p with Some x => Some x | None => g_gr gr end)
+    /\ (pa_llgr q = match pa_llgr p with Some x => Some x | None => g_llgr gr end)
+    /\ pa_passive q = pa_passive p || g_passive gr
+    /\ pa_rs_client q = pa_rs_client p || g_rs_client gr
+    /\ pa_prefix_limits q = pa_prefix_limits p /\ pa_admin_down q = pa_admin_down p /\ pa_delete q = pa_delete p.
+Proof. exact C16_peer_group_inheritance. Qed.
+Check peer_group_inheritance :
+  forall (p : params) (gr : group),
+    let q := apply_peer_group p gr in
+    (pa_expected_asn q = if pa_expected_asn p =? 0 then g_as gr else pa_expected_asn p)
+    /\ (pa_local_asn q = if pa_local_asn p =? 0 then g_local_asn gr else pa_local_asn p)
+    /\ (pa_hold q = if pa_hold p =? DEFAULT_HOLD_TIME
+                    then match g_hold gr with Some h => h | None => DEFAULT_HOLD_TIME end else pa_hold p)
+    /\ (pa_families q = match pa_families p with [] => g_families gr | f => f end)
+    /\ (pa_send_max q = match pa_families p with [] => g_send_max gr | _ => pa_send_max p end)
+    /\ (pa_gr q = match pa_gr p with Some x => Some x | None => g_gr gr end)
+    /\ (pa_llgr q = match pa_llgr p with Some x => Some x | None => g_llgr gr end)
+    /\ pa_passive q = pa_passive p || g_passive gr
+    /\ pa_rs_client q = pa_rs_client p || g_rs_client gr
+    /\ pa_prefix_limits q = pa_prefix_limits p /\ pa_admin_down q = pa_admin_down p /\ pa_delete q = pa_delete p.
+Print Assumptions peer_group_inheritance.
+
+(* (17) PeerParams::build_local_cap: MultiProtocol exactly for the configured families (the neighbour's address family when none), always 4-octet AS with the local AS and extended message, GR / LLGR exactly as configured. *)
+Theorem local_cap_from_config :
+  forall (v6 : bool) (la : N) (fams : list (N * N)) (gr : option grcfg) (llgr : option (list (N * N))),
+    let caps := build_local_cap v6 la fams gr llgr in
+    (forall f, In (CMultiProtocol f) caps <->
+               (fams = [] /\ f = (if v6 then IPV6 else IPV4)) \/ In f (map fst fams))
+    /\ In (CFourOctet la) caps /\ In CExtMessage caps
+    /\ (forall fl t fs, In (CGR fl t fs) caps <->
+                        exists g, gr = Some g /\ fl = (if gr_notif g then 4 else 0) /\ t = gr_time g
+                                  /\ fs = map (fun f => (f, 0)) (gr_families g))
+    /\ (forall v, In (CLLGR v) caps <-> exists l, llgr = Some l /\ v = map (fun ft => (fst ft, 0, snd ft)) l).
+Proof. exact C16_local_cap_from_config. Qed.
+Check local_cap_from_config :
+  forall (v6 : bool) (la : N) (fams : list (N * N)) (gr : option grcfg) (llgr : option (list (N * N))),
+    let caps := build_local_cap v6 la fams gr llgr in
+    (forall f, In (CMultiProtocol f) caps <->
+               (fams = [] /\ f = (if v6 then IPV6 else IPV4)) \/ In f (map fst fams))
+    /\ In (CFourOctet la) caps /\ In CExtMessage caps
+    /\ (forall fl t fs, In (CGR fl t fs) caps <->
+                        exists g, gr = Some g /\ fl = (if gr_notif g then 4 else 0) /\ t = gr_time g
+                                  /\ fs = map (fun f => (f, 0)) (gr_families g))
+    /\ (forall v, In (CLLGR v) caps <-> exists l, llgr = Some l /\ v = map (fun ft => (fst ft, 0, snd ft)) l).
+Print Assumptions local_cap_from_config.
+
+(* (18) Global.peer_group is a hash map: whether a connection is admitted does not depend on its iteration order. *)
+Theorem admission_independent_of_group_order :
+  forall (g : global) (l : list group) (a : ipaddr) (r : role),
+    wf_global g -> addr_ok a -> (forall gr, In gr l <-> In gr (gl_groups g)) ->
+    (accept_connection (with_groups g l) a r <> Reject <-> accept_connection g a r <> Reject).
+Proof. exact C16_admission_independent_of_group_order. Qed.
+Check admission_independent_of_group_order :
+  forall (g : global) (l : list group) (a : ipaddr) (r : role),
+    wf_global g -> addr_ok a -> (forall gr, In gr l <-> In gr (gl_groups g)) ->
+    (accept_connection (with_groups g l) a r <> Reject <-> accept_connection g a r <> Reject).
+Print Assumptions admission_independent_of_group_order.
+
+(* (19) Observation, not a finding: with overlapping dynamic prefixes in two groups the settings a dynamic neighbour inherits (here the hold time, 30 or 90) depend on the map's iteration order; the property text does not say which group is its group. *)
+Theorem overlapping_groups_order_dependent :
+  exists (g : global) (a : ipaddr) (p1 p2 : peer) (g1 g2 : global) (s1 s2 : session),
+    accept_connection g a RPassive = Accept g1 s1
+    /\ accept_connection (with_groups g (rev (gl_groups g))) a RPassive = Accept g2 s2
+    /\ lookup a (gl_peers g1) = Some p1 /\ lookup a (gl_peers g2) = Some p2
+    /\ pe_hold p1 = 30 /\ pe_hold p2 = 90.
+Proof. exact C16_overlapping_groups_order_dependent. Qed.
+Check overlapping_groups_order_dependent :
+  exists (g : global) (a : ipaddr) (p1 p2 : peer) (g1 g2 : global) (s1 s2 : session),
+    accept_connection g a RPassive = Accept g1 s1
+    /\ accept_connection (with_groups g (rev (gl_groups g))) a RPassive = Accept g2 s2
+    /\ lookup a (gl_peers g1) = Some p1 /\ lookup a (gl_peers g2) = Some p2
+    /\ pe_hold p1 = 30 /\ pe_hold p2 = 90.
+Print Assumptions overlapping_groups_order_dependent.
+
+(* (20) Record of finding C16-5 (repaired): without the identity check at the end of PeerSession::run, the task of a deleted neighbour removes the dynamic neighbour admitted at the same address in the meantime, although that neighbour's connection is alive. *)
+Theorem stale_task_removes_live_dynamic_peer_refuted :
+  exists (g g' : global) (a : ipaddr) (s : session) (p : peer),
+    fst (step_op g (ODeleteReconnect a RPassive)) = g'
+    /\ snd (step_op g (ODeleteReconnect a RPassive)) = Some (Some s)
+    /\ lookup a (gl_peers g') = Some p /\ pe_conn_passive p = true
+    /\ lookup a (gl_peers (stale_task_end_unchecked g' a)) = None.
+Proof. exact C16_stale_task_removes_live_dynamic_peer_refuted. Qed.
+Check stale_task_removes_live_dynamic_peer_refuted :
+  exists (g g' : global) (a : ipaddr) (s : session) (p : peer),
+    fst (step_op g (ODeleteReconnect a RPassive)) = g'
+    /\ snd (step_op g (ODeleteReconnect a RPassive)) = Some (Some s)
+    /\ lookup a (gl_peers g') = Some p /\ pe_conn_passive p = true
+    /\ lookup a (gl_peers (stale_task_end_unchecked g' a)) = None.
+Print Assumptions stale_task_removes_live_dynamic_peer_refuted.
